@@ -336,6 +336,8 @@ class Envelope:
                 for k, v in out.items():
                     outcomes[k] = v
         else:
+            from photon_weave.state.polarization import PolarizationLabel
+
             assert isinstance(self.fock.index, int)
             assert isinstance(self.polarization.index, int)
 
@@ -344,231 +346,101 @@ class Envelope:
             reshape_shape[self.polarization.index] = self.polarization.dimensions
 
             C = Config()
-
-            if self.expansion_level == ExpansionLevel.Vector:
-                assert isinstance(self.state, jnp.ndarray)
+            vector = self.expansion_level == ExpansionLevel.Vector
+            assert isinstance(self.state, jnp.ndarray)
+            if vector:
                 assert self.state.shape == (self.dimensions, 1)
-                reshape_shape.append(1)
+                # Amplitude tensor, one axis per state
                 ps = self.state.reshape(reshape_shape)
-
-                # 1. Measure Fock Part
-                if (
-                    (separate_measurement and self.fock in states)
-                    or len(states) == 0
-                    or len(states) == 2
-                ):
-                    probabilities = jnp.sum(
-                        jnp.abs(ps) ** 2, axis=self.polarization.index
-                    ).flatten()
-                    key = C.random_key
-                    choice = int(
-                        jax.random.choice(
-                            key, a=jnp.arange(len(probabilities)), p=probabilities
-                        )
-                    )
-                    outcomes[self.fock] = choice
-
-                    # Construct post measurement state
-                    post_measurement = jnp.take(ps, choice, self.polarization.index)
-                    ps = jnp.take(ps, choice, axis=self.fock.index)
-
-                    einsum = "ij,kj->ikj"
-                    if self.fock.index == 0:
-                        ps = jnp.einsum(einsum, post_measurement, ps)
-                    elif self.fock.index == 1:
-                        ps = jnp.einsum(einsum, ps, post_measurement)
-
-                if (
-                    (separate_measurement and self.polarization in states)
-                    or len(states) == 0
-                    or len(states) == 2
-                ):
-                    probabilities = jnp.sum(
-                        jnp.abs(ps) ** 2, axis=self.fock.index
-                    ).flatten()
-                    probabilities = probabilities / jnp.sum(probabilities)
-                    key = C.random_key
-                    choice = int(
-                        jax.random.choice(
-                            key, a=jnp.arange(len(probabilities)), p=probabilities
-                        )
-                    )
-                    outcomes[self.polarization] = choice
-
-                    # Construct post measurement state
-                    post_measurement = jnp.take(ps, choice, self.polarization.index)
-                    ps = jnp.take(ps, choice, axis=self.polarization.index)
-                    einsum = "ij,kj->ikj"
-                    if self.fock.index == 0:
-                        ps = jnp.einsum(einsum, ps, post_measurement)
-                    else:
-                        ps = jnp.einsum(einsum, post_measurement, ps)
-
-            if self.expansion_level == ExpansionLevel.Matrix:
-                assert isinstance(self.state, jnp.ndarray)
+            else:
                 assert self.state.shape == (self.dimensions, self.dimensions)
-                reshape_shape = [*reshape_shape, *reshape_shape]
-                transpose_pattern = [0, 2, 1, 3]
-                ps = self.state.reshape(reshape_shape).transpose(transpose_pattern)
+                # Density tensor: row axes followed by column axes
+                ps = self.state.reshape([*reshape_shape, *reshape_shape])
 
-                # 1. Measure Fock Part
-                if (
-                    (separate_measurement and self.fock in states)
-                    or len(states) == 0
-                    or len(states) == 2
-                ):
-                    if self.fock.index == 0:
-                        subspace = jnp.einsum("bcaa->bc", ps)
-                    else:
-                        subspace = jnp.einsum("aabc->bc", ps)
-                    probabilities = jnp.diag(subspace).real
-                    probabilities /= jnp.sum(probabilities)
-                    key = C.random_key
-                    choice = int(
-                        jax.random.choice(
-                            key, a=jnp.arange(len(probabilities)), p=probabilities
-                        )
-                    )
-                    outcomes[self.fock] = choice
+            # Only the given states are measured, when measured separately
+            # (polarization first, same order as for the uncombined envelope)
+            measured_states: List[Union[Fock, Polarization]] = [
+                s
+                for s in [self.polarization, self.fock]
+                if not separate_measurement
+                or len(states) == 0
+                or any(s is given for given in states)
+            ]
 
-                    # Reconstruct post measurement state
-                    indices: List[Union[slice, int]] = [slice(None)] * len(ps.shape)
-                    indices[self.fock.index] = outcomes[self.fock]
-                    indices[self.fock.index + 1] = outcomes[self.fock]
-                    ps = ps[tuple(indices)]
-
-                    post_measurement = jnp.zeros(
-                        (self.fock.dimensions, self.fock.dimensions)
-                    )
-                    post_measurement = post_measurement.at[choice, choice].set(1)
-                    if self.fock.index == 0:
-                        ps = jnp.einsum("ab,cd->abcd", post_measurement, ps)
-                    else:
-                        ps = jnp.einsum("ab,cd->abcd", ps, post_measurement)
-
-                # 2. Measure Polarization Part
-                if (
-                    (separate_measurement and self.polarization in states)
-                    or len(states) == 0
-                    or len(states) == 2
-                ):
-                    if self.polarization.index == 1:
-                        subspace = jnp.einsum("aabc->bc", ps)
-                    else:
-                        subspace = jnp.einsum("bcaa->bc", ps)
-                    probabilities = jnp.diag(subspace).real
-                    probabilities /= jnp.sum(probabilities)
-                    key = C.random_key
-                    choice = int(
-                        jax.random.choice(
-                            key, a=jnp.arange(len(probabilities)), p=probabilities
-                        )
-                    )
-                    outcomes[self.polarization] = choice
-
-                    # Reconstruct post measurement state
-                    indices = [slice(None)] * len(ps.shape)
-                    indices[self.polarization.index] = outcomes[self.polarization]
-                    indices[self.polarization.index + 1] = outcomes[self.polarization]
-                    ps = ps[tuple(indices)]
-
-                    post_measurement = jnp.zeros(
-                        (self.polarization.dimensions, self.polarization.dimensions)
-                    )
-                    post_measurement = post_measurement.at[choice, choice].set(1)
-
-                    if self.polarization.index == 0:
-                        ps = jnp.einsum("ab,cd->abcd", post_measurement, ps)
-                    else:
-                        ps = jnp.einsum("ab,cd->abcd", ps, post_measurement)
-
-            # Handle post measurement processes
-            ps = self.state.reshape(reshape_shape)
-            if self.expansion_level == ExpansionLevel.Vector:
-                if separate_measurement and len(states) == 1:
-                    if self.fock not in states:
-                        self.fock.state = jnp.take(
-                            ps, outcomes[self.polarization], self.polarization.index
-                        )
-                        self.fock.expansion_level = ExpansionLevel.Vector
-                        self.fock.index = None
-                        if destructive:
-                            self.polarization._set_measured()
-                        else:
-                            self.polarization.state = jnp.zeros((2, 1))
-                            self.polarization.state.at[
-                                1, outcomes[self.polarization]
-                            ].set(1)
-                            self.polarization.index = None
-                    if self.polarization not in states:
-                        self.polarization.state = jnp.take(
-                            ps, outcomes[self.fock], self.fock.index
-                        )
-                        self.polarization.expansion_level = ExpansionLevel.Vector
-                        self.polarization.index = None
-                        if destructive:
-                            self.fock._set_measured()
-                        else:
-                            self.fock.state = outcomes[self.fock]
-                            self.fock.expansion_level = ExpansionLevel.Label
-                            self.fock.index = None
+            for s in measured_states:
+                assert isinstance(s.index, int)
+                other = 1 - s.index
+                # Outcome probabilities are the diagonal of the reduced state
+                if vector:
+                    probabilities = jnp.sum(jnp.abs(ps) ** 2, axis=other)
                 else:
-                    if self.fock.index == 0:
-                        self.fock.state = jnp.einsum("ijk->ik", ps)
-                    else:
-                        self.fock.state = jnp.einsum("ijk->jk", ps)
-                    self.fock.expansion_level = ExpansionLevel.Vector
-                    self.fock.index = None
+                    joint = jnp.einsum("abab->ab", ps).real
+                    probabilities = jnp.sum(joint, axis=other)
+                probabilities = probabilities / jnp.sum(probabilities)
+                key = C.random_key
+                choice = int(
+                    jax.random.choice(
+                        key, a=jnp.arange(len(probabilities)), p=probabilities
+                    )
+                )
+                outcomes[s] = choice
 
-                    if self.polarization.index == 0:
-                        self.polarization.state = jnp.einsum("ijk->ik", ps)
-                    else:
-                        self.polarization.state = jnp.einsum("ijk->jk", ps)
-                    self.polarization.expansion_level = ExpansionLevel.Vector
-                    self.polarization.index = None
-                    if destructive:
-                        self._set_measured()
-                        self.polarization._set_measured()
-                        self.fock._set_measured()
-            if self.expansion_level == ExpansionLevel.Matrix:
-                if separate_measurement and len(states) == 1:
-                    if self.fock not in states:
-                        if self.fock.index == 0:
-                            self.fock.state = jnp.einsum("abcb->ac", ps)
-                        elif self.fock.index == 1:
-                            self.fock.state = jnp.einsum("abac->bc", ps)
-                        self.fock.expansion_level = ExpansionLevel.Matrix
-                        self.fock.index = None
-                        if destructive:
-                            self.polarization._set_measured()
-                    if self.polarization not in states:
-                        if self.polarization.index == 0:
-                            self.polarization.state = jnp.einsum("abcb->ac", ps)
-                        elif self.polarization.index == 1:
-                            self.polarization.state = jnp.einsum("abac->bc", ps)
-                        self.polarization.expansion_level = ExpansionLevel.Matrix
-                        self.polarization.index = None
-                        if destructive:
-                            self.fock._set_measured()
+                # Project onto the outcome and renormalize
+                projector = jnp.zeros(s.dimensions).at[choice].set(1)
+                if vector:
+                    shape = [1, 1]
+                    shape[s.index] = s.dimensions
+                    ps = ps * projector.reshape(shape)
+                    ps = ps / jnp.linalg.norm(ps)
                 else:
-                    if self.fock.index == 0:
-                        self.fock.state = jnp.einsum("ikjk->ij", ps)
+                    shape = [1, 1, 1, 1]
+                    shape[s.index] = s.dimensions
+                    ps = ps * projector.reshape(shape)
+                    shape = [1, 1, 1, 1]
+                    shape[s.index + 2] = s.dimensions
+                    ps = ps * projector.reshape(shape)
+                    ps = ps / jnp.einsum("abab->", ps)
+
+            # The states are placed back into their own spaces
+            for s in [self.fock, self.polarization]:
+                assert isinstance(s.index, int)
+                if any(s is measured for measured in measured_states):
+                    continue
+                # State which was not measured: conditional state
+                other_state = self.polarization if s is self.fock else self.fock
+                assert isinstance(other_state.index, int)
+                if vector:
+                    conditional = jnp.take(ps, outcomes[other_state], other_state.index)
+                    s.state = conditional.reshape((-1, 1))
+                    s.expansion_level = ExpansionLevel.Vector
+                else:
+                    conditional = jnp.take(ps, outcomes[other_state], other_state.index)
+                    conditional = jnp.take(
+                        conditional, outcomes[other_state], other_state.index + 1
+                    )
+                    s.state = conditional.reshape((s.dimensions, s.dimensions))
+                    s.expansion_level = ExpansionLevel.Matrix
+                s.index = None
+            for s in measured_states:
+                if destructive:
+                    s._set_measured()
+                else:
+                    if s is self.polarization:
+                        s.state = (
+                            PolarizationLabel.H
+                            if outcomes[s] == 0
+                            else PolarizationLabel.V
+                        )
                     else:
-                        self.fock.state = jnp.einsum("kikj->ij", ps)
-                    self.fock.expansion_level = ExpansionLevel.Matrix
-                    self.fock.index = None
-                    if self.polarization.index == 0:
-                        self.polarization.state = jnp.einsum("ikjk->ij", ps)
-                    else:
-                        self.polarization.state = jnp.einsum("kikj->ij", ps)
-                    self.polarization.expansion_level = ExpansionLevel.Matrix
-                    self.polarization.index = None
-                    if destructive:
-                        self._set_measured()
-                        self.fock._set_measured()
-                        self.polarization._set_measured()
-            self.polarization.contract()
-            self.fock.contract()
+                        s.state = outcomes[s]
+                    s.expansion_level = ExpansionLevel.Label
+                    s.index = None
+            # The envelope does not hold the state anymore
+            self.state = None
+            self._expansion_level = None
+            for s in [self.fock, self.polarization]:
+                if not s.measured and C.contractions:
+                    s.contract()
 
         if destructive:
             self._set_measured()
